@@ -60,18 +60,23 @@ Theorem C18_string_form_decided_by_prefix : forall u,
   (is_telegram_url u = true -> decided_by_prefix TELEGRAM_URL_RE_f TELEGRAM_URL_RE u).
 Proof. intros u. exact (conj (facebook_decided u) (conj (twitter_decided u) (conj (instagram_decided u) (telegram_decided u)))). Qed.
 
-(* pre-parsed forms of the Twitter / Instagram / Telegram predicates: a positive answer means that the hostname ends
+(* pre-parsed forms of the Twitter / Instagram / Telegram / Facebook predicates: a positive answer means that the hostname ends
    with one of the site's domains (in re's case-insensitive sense), optionally followed by one newline, and that this
    occurrence starts the hostname or follows a '.': 'notinstagram.com', 'netflix.com', 'twitter.com.evil.fr', 'chat.me'
-   are refused.  (Facebook's pattern 'facebook.<any label>' has a repetition and is left to the harness.) *)
+   are refused.  For Facebook: the hostname ends with 'fb.me', or with 'facebook.' followed by exactly one more (dot-free) label. *)
 Theorem C18_parsed_form_membership : forall p,
   (is_twitter_parsed p = Ok true ->
      exists h w, hostname p = Some h /\ In w twitter_domains /\ label_suffix TWITTER_DOMAINS_RE_f w h) /\
   (is_instagram_parsed p = Ok true ->
      exists h w, hostname p = Some h /\ In w instagram_domains /\ label_suffix INSTAGRAM_DOMAIN_RE_f w h) /\
   (is_telegram_parsed p = Ok true ->
-     exists h w, hostname p = Some h /\ In w telegram_domains /\ label_suffix TELEGRAM_DOMAINS_RE_f w h).
-Proof. intros p. exact (conj (twitter_parsed_member p) (conj (instagram_parsed_member p) (telegram_parsed_member p))). Qed.
+     exists h w, hostname p = Some h /\ In w telegram_domains /\ label_suffix TELEGRAM_DOMAINS_RE_f w h) /\
+  (is_facebook_parsed p = Ok true ->
+     exists h, hostname p = Some h /\
+       (label_suffix FACEBOOK_DOMAIN_RE_f fbme h \/ label_suffix_then_label FACEBOOK_DOMAIN_RE_f facebook_word h)).
+Proof.
+  intros p. exact (conj (twitter_parsed_member p) (conj (instagram_parsed_member p) (conj (telegram_parsed_member p) (facebook_parsed_member p)))).
+Qed.
 
 (* non-vacuity: a twitter url with a path, and what decided_by_prefix unfolds to *)
 Local Open Scope string_scope.
